@@ -410,7 +410,12 @@ func RunProperty(id, tier string, seed uint64, replayPath string) int {
 	knownSeen := map[string]int{}
 	knownWhat := map[string]string{}
 	replayN := 0
-	os.MkdirAll(filepath.Join(vdir, "replays"), 0o755)
+	rpdir := filepath.Join(vdir, "replays")
+	if d := os.Getenv("VERIF_EVIDENCE_DIR"); d != "" {
+		// development aid (runs against a scratch checkout): replays go with the scratch evidence
+		rpdir = filepath.Join(d, "replays")
+	}
+	os.MkdirAll(rpdir, 0o755)
 	printed := map[string]bool{}
 	for _, cv := range agg.Violations {
 		if k := matchKnown(known, id, cv.V); k != nil {
@@ -425,7 +430,7 @@ func RunProperty(id, tier string, seed uint64, replayPath string) int {
 		}
 		printed[key] = true
 		replayN++
-		rp := filepath.Join(vdir, "replays", fmt.Sprintf("%s-%d-%d.json", id, seed, replayN))
+		rp := filepath.Join(rpdir, fmt.Sprintf("%s-%d-%d.json", id, seed, replayN))
 		data, _ := json.MarshalIndent(map[string]any{"property": id, "case": cv.Case, "violation": cv.V}, "", " ")
 		os.WriteFile(rp, data, 0o644)
 		if replayN <= 12 {
